@@ -1,6 +1,7 @@
 import FxVerif.Model.C19
 import FxVerif.Proofs.C19
 import FxVerif.Proofs.C19Ledger
+import FxVerif.Proofs.C19Genesis
 /-!
 # C19 — IBC transfer middleware: inbound credit or error, memo-call sender, refund exactly once, relation removed
 
@@ -950,5 +951,150 @@ Theorems of this file:
   non_canonical_ack_then_refund, canonical_check_first_blocks, both_arms_without_canonical_check_witness,
   hook_before_application_witness
 -/
+
+/-! ## 9. (round 5) the transfer application's credit as REGENERATED from ibc-go -/
+
+/-- ibc-go's `Keeper.OnRecvPacket` (module cache, version of go.mod), translated path by path, is the two-path program:
+a path that starts with the packet's SOURCE port / channel is un-escrowed under the rest of the path; every other path
+is minted under the DESTINATION port / channel ++ path.  A change of ibc-go that credits another denomination, or
+credits it another way, breaks this obligation. -/
+theorem app_recv_program : FxVerif.Gen.C19.appRecvProg = stdAppRecvProg := by decide
+
+/-- the former hand model of the application's choice (`appDenom`, until round 4 in the trusted base) IS what the
+regenerated program answers — for EVERY denomination path (any number of hops, any base name) on every channel pair -/
+theorem app_program_is_appDenom (src dst : Ch) (pd : PDenom) :
+    appDenomBy FxVerif.Gen.C19.appRecvProg src dst pd = appDenom src dst pd := by
+  rw [app_recv_program]; exact appDenomBy_std src dst pd
+
+/-- `parseIBCCoinDenom` of fx-core (regenerated) and `OnRecvPacket` of ibc-go (regenerated), both INTERPRETED, answer the
+same denomination on every path: the hook always decides about the coin the application really credited.  Both sides
+of this equation are read off the source on every run. -/
+theorem parse_recomputes_app_program (src dst : Ch) (pd : PDenom) :
+    hookDenom genCfg.parseProg src dst pd = appDenomBy FxVerif.Gen.C19.appRecvProg src dst pd := by
+  rw [app_program_is_appDenom]; exact parse_recomputes_credited_denom src dst pd
+
+/-- the application un-escrows exactly the paths that return through the packet's source channel and mints all others -/
+theorem app_unescrows_exactly_returning (src dst : Ch) (pd : PDenom) :
+    appKindBy FxVerif.Gen.C19.appRecvProg src dst pd = if pd.hops.head? = some src then "unescrow" else "mint" := by
+  rw [app_recv_program]; exact appKindBy_std src dst pd
+
+/-- the two hand-written choices of the model's receive step (`recvApp`: the denomination `bankDenom t l` it credits,
+and `returning t` = un-escrow instead of mint) are what the regenerated program says for every packet class, on every
+channel pair -/
+theorem app_credits_model_denom (src l : Ch) (t : Tok) :
+    Denom.ofR (appDenomBy FxVerif.Gen.C19.appRecvProg src l (pktDenom t src)) = some (bankDenom t l) ∧
+    appKindBy FxVerif.Gen.C19.appRecvProg src l (pktDenom t src) = (if returning t then "unescrow" else "mint") := by
+  rw [app_recv_program]
+  exact ⟨by rw [appDenomBy_std, appDenom_pkt, ofR_traceOf], appKindBy_pkt src l t⟩
+
+example : appDenomBy FxVerif.Gen.C19.appRecvProg 7 0 ⟨[7, 3, 9], "FX"⟩ = .voucher [3, 9] "FX" ∧
+    appDenomBy FxVerif.Gen.C19.appRecvProg 7 0 ⟨[3, 7], "FX"⟩ = .voucher [0, 3, 7] "FX" ∧
+    appDenomBy FxVerif.Gen.C19.appRecvProg 7 0 ⟨[7], "FX"⟩ = .native "FX" := by decide
+
+/-! ## 10. (round 5) genesis round trips -/
+
+/-- EXACTLY ONCE survives a restart from an exported genesis.  For the state reached from the initial state by ANY list
+of operations INTERLEAVED WITH ANY NUMBER OF GENESIS ROUND TRIPS of the erc20 module (whether or not they carry the
+tracking records — `genesisCarries` is regenerated from `ExportGenesis` / `InitGenesis`): no two refunds for one (local
+channel, sequence); a refunded transfer is no longer committed and never was acknowledged successfully, and vice versa;
+a refund of a transfer the chain still tracks names its sender, token and amount and, for the aliased token, was made
+in ERC-20 form.  (What a round trip that DROPS the records costs is the form of the refund of the transfers in flight
+at that moment: `genesis_dropping_records_refunds_in_bank_form`.) -/
+theorem refund_exactly_once_across_genesis (xs : List XOp) :
+    let c := (xrun xinit xs).st.ctl
+    (c.refundLog.map RefundRec.key).Nodup ∧
+    (∀ r ∈ c.refundLog, (∀ x ∈ c.commits, x.1 ≠ r.key) ∧ r.key ∉ c.ackedOk) ∧
+    (∀ k ∈ c.ackedOk, ∀ r ∈ c.refundLog, r.key ≠ k) ∧
+    (∀ r ∈ c.refundLog, ∀ e ∈ c.evmSent, r.key = e.key →
+      r.sender = e.sender ∧ r.tok = e.tok ∧ r.amt = e.amt ∧ (e.tok = .A → r.erc20Form = true)) := by
+  have h := xrun_inv genCfg genCfg_sound genesisCarries FxVerif.Gen.C19.appRecvProg xs xinit inv_init
+  refine ⟨h.nodup, fun r hr => ⟨h.rNC r hr, h.rNA r hr⟩, ?_, h.rE⟩
+  intro k hk r hr he
+  exact h.rNA r hr (he ▸ hk)
+
+example : (xrun xinit [.op (.chan 0 1), .op (.fund 5 .A 0 100), .op (.send 0 5 .A 40), .genesis, .op (.settle 0 1 .timeout),
+    .op (.settle 0 1 .ackErr)]).st.ctl.refundLog.length = 1 := by decide
+
+/-- a genesis round trip touches nothing but the store of tracking records: balances, ERC-20 balances, packet
+commitments, sequences and the logs are what they were -/
+theorem genesis_keeps_everything_else (x : XState) :
+    let r := xstep x .genesis
+    r.1.st.bal = x.st.bal ∧ r.1.st.ctl.commits = x.st.ctl.commits ∧ r.1.st.ctl.next = x.st.ctl.next ∧
+    r.1.st.ctl.refundLog = x.st.ctl.refundLog ∧ r.1.st.ctl.ackedOk = x.st.ctl.ackedOk := by
+  have h := genesisCtl_frame genesisCarries x.st.ctl
+  exact ⟨rfl, h.1, h.2.1, h.2.2.1, h.2.2.2.1⟩
+
+/-- when the genesis state carries the tracking records a history with round trips IS the history without them — every theorem
+of this file about `run init ops` then holds across restarts, for every configuration -/
+theorem genesis_carrying_records_is_invisible (cfg : Cfg) (xs : List XOp) :
+    (xrunWith cfg true FxVerif.Gen.C19.appRecvProg xinit xs).st = runWith cfg init (xs.filterMap XOp.op?) :=
+  xrun_carried cfg _ xs xinit
+
+/-- the ERC-20 refund across restarts.  PARTIAL: needs the extra hypothesis `genesisCarries = true` — the erc20 module's
+`ExportGenesis` AND `InitGenesis` handle the tracking records — which does NOT hold for the tree as it is (finding
+`genesis-drops-relations`, fixes/C19-genesis-relations.md; the generated facts are both `false`).  Under it the
+statement of `evm_refund_credits_erc20` holds for every history with any number of genesis round trips. -/
+theorem evm_refund_credits_erc20_across_genesis_partial (hcar : genesisCarries = true) (xs : List XOp) (e : SentRec) (mode : Mode)
+    (hm : mode ≠ .ackOk) (he : e ∈ (xrun xinit xs).st.ctl.evmSent) (hB : e.tok = .A)
+    (hc : ∃ x ∈ (xrun xinit xs).st.ctl.commits, x.1 = e.key)
+    (hon : (xrun xinit xs).st.bal.paused = false ∧ (xrun xinit xs).st.bal.off.contains ETok.base = false) :
+    let s := (xrun xinit xs).st
+    let r := step s (.settle e.ch e.seq mode)
+    r.2.isDone ∧
+    sget r.1.bal.erc (e.sender, ETok.base) = sget s.bal.erc (e.sender, ETok.base) + e.amt ∧
+    r.1.ctl.refundLog = ⟨e.ch, e.seq, e.sender, .A, e.amt, true⟩ :: s.ctl.refundLog ∧
+    r.1.ctl.rel = dropRel s.ctl.rel (e.ch, e.seq) := by
+  have hx : (xrun xinit xs).st = run init (xs.filterMap XOp.op?) := by
+    unfold xrun; rw [hcar]; exact xrun_carried genCfg _ xs xinit
+  rw [hx] at he hc hon ⊢
+  obtain ⟨h1, h2, _, _, h5, h6⟩ := evm_refund_credits_erc20 (xs.filterMap XOp.op?) e mode hm he hB hc hon
+  exact ⟨h1, h2, h5, h6⟩
+
+-- the hypothesis is satisfiable (a tree whose genesis carries the records): the round trip is then the identity
+example : (xrunWith (refCfg 4) true stdAppRecvProg xinit [.op (.chan 0 1), .op (.fund 5 .A 0 100), .op (.send 0 5 .A 40), .genesis]).st.ctl.rel
+    = [(0, 1)] := by decide
+
+/-- what a genesis round trip that DROPS the records costs, in ANY state: every transfer of the aliased token that is
+committed at that moment is afterwards refunded (error acknowledgement or timeout, the callback succeeds) WITHOUT any
+change of an ERC-20 balance, logged in bank form — the sender who paid with ERC-20 tokens gets bank coins back. -/
+theorem genesis_dropping_records_refunds_in_bank_form (x : XState) (l : Ch) (seq : Seq) (p : Pkt) (mode : Mode) (hm : mode ≠ .ackOk)
+    (hlk : lookup (l, seq) x.st.ctl.commits = some p) (hA : p.tok = .A) :
+    let s := (xstepWith genCfg false FxVerif.Gen.C19.appRecvProg x .genesis).1.st
+    let r := step s (.settle l seq mode)
+    r.2.isDone ∧ r.1.bal.erc = x.st.bal.erc ∧
+    r.1.ctl.refundLog = ⟨l, seq, p.sender, .A, p.amt, false⟩ :: x.st.ctl.refundLog := by
+  have hE : genCfg.ackErrRefunds = true := by decide
+  have hT : genCfg.timeoutRefunds = true := by decide
+  have hG : genCfg.refundGuarded = true := by decide
+  obtain ⟨h1, h2, h3, _⟩ := settle_refund_orphan genCfg genCfg_sound hE hT hG
+    (xstepWith genCfg false FxVerif.Gen.C19.appRecvProg x .genesis).1.st l seq p mode hm hlk hA (by simp [xstepWith, genesisCtl])
+  exact ⟨h1, h2, h3⟩
+
+example : lookup (0, 1) (xrun xinit [.op (.chan 0 1), .op (.fund 5 .A 0 100), .op (.send 0 5 .A 40)]).st.ctl.commits =
+    some ⟨5, .A, 40, true, 1⟩ := by decide
+
+/-- the finding `genesis-drops-relations` as a statement (tree independent): the same history, the same timeout — with
+the records dropped the sender of 40 ERC-20 tokens ends with 60 tokens and 40 BANK coins, with the records carried he
+ends with his 100 tokens; the dropped transfer is remembered as an orphan. -/
+theorem genesis_drops_relations_witness :
+    let xs := [XOp.op (.chan 0 1), .op (.fund 5 .A 0 100), .op (.send 0 5 .A 40), .genesis]
+    let dropped := xrunWith (refCfg 4) false stdAppRecvProg xinit xs
+    let carried := xrunWith (refCfg 4) true stdAppRecvProg xinit xs
+    (stepWith (refCfg 4) dropped.st (.settle 0 1 .timeout)).2 = .done 60 40 0 0 100 60 [] ∧
+    (stepWith (refCfg 4) carried.st (.settle 0 1 .timeout)).2 = .done 100 0 0 0 100 100 [] ∧
+    dropped.orphans = [⟨0, 1, 5, .A, 40⟩] ∧ carried.orphans = [] := by
+  decide
+
+/-- an orphan is exactly an EVM-originated transfer of the aliased token that was in flight when the records were dropped -/
+theorem genesis_orphans_were_inflight (x : XState) (e : SentRec)
+    (he : e ∈ (xstepWith genCfg false FxVerif.Gen.C19.appRecvProg x .genesis).1.orphans) (hnew : e ∉ x.orphans) :
+    e ∈ x.st.ctl.evmSent ∧ e.tok = .A ∧ ∃ c ∈ x.st.ctl.commits, c.1 = e.key := by
+  have : e ∈ orphansOf false x.st.ctl ++ x.orphans := he
+  rcases List.mem_append.mp this with h | h
+  · exact orphansOf_spec x.st.ctl e h
+  · exact absurd h hnew
+
+example : ∃ x : XState, ∃ e, e ∈ (xstepWith genCfg false FxVerif.Gen.C19.appRecvProg x .genesis).1.orphans ∧ e ∉ x.orphans :=
+  ⟨xrun xinit [.op (.chan 0 1), .op (.fund 5 .A 0 100), .op (.send 0 5 .A 40)], ⟨0, 1, 5, .A, 40⟩, by decide, by decide⟩
 
 end FxVerif.Props.C19
